@@ -4,9 +4,11 @@ Python here only (i) calls bctpy, (ii) encodes numbers for TLC, (iii) keeps
 books.  Every judgement about a property is a TLA+ expression evaluated by TLC
 (spec/*.tla); see DESIGN.md sections 3-4.
 """
+import concurrent.futures
 import json
 import os
 import re
+import threading
 import shutil
 import subprocess
 import sys
@@ -40,6 +42,7 @@ class Ctx:
         if not replay:
             shutil.rmtree(os.path.join(VERIF, ".work", "replays", pid), ignore_errors=True)
         self.n_tlc = 0
+        self.lock = threading.Lock()
         # evidence accumulators
         self.mc_runs = []          # dicts per TLC model-checking run
         self.val_runs = []         # dicts per validation batch
@@ -66,8 +69,10 @@ class Ctx:
 
     # ------------------------------------------------------------------ TLC
     def _tlc(self, tla, cfg, tag, env=None, workers=NCPU, extra=(), timeout=3600):
-        self.n_tlc += 1
-        meta = os.path.join(self.work, "tlc_%02d_%s" % (self.n_tlc, tag))
+        with self.lock:
+            self.n_tlc += 1
+            k = self.n_tlc
+        meta = os.path.join(self.work, "tlc_%02d_%s" % (k, tag))
         os.makedirs(meta, exist_ok=True)
         cmd = ["java", "-XX:+UseParallelGC", "-Xmx8g", "-Xss64m", "-cp", TLA_CP, "tlc2.TLC",
                "-workers", str(workers), "-metadir", meta, "-noGenerateSpecTE",
@@ -94,16 +99,18 @@ class Ctx:
         return dict(rc=p.returncode, out=out, generated=gen, distinct=dist,
                     wall=time.time() - t, outfile=os.path.join(meta, "tlc.out"))
 
-    def mc(self, tla, cfg, tag=None, consts=None, timeout=3600, coverage=False, extra=()):
+    def mc(self, tla, cfg, tag=None, consts=None, timeout=3600, coverage=False, extra=(), workers=NCPU):
         """Exhaustive TLC run of a model; every INVARIANT/PROPERTY of the cfg must hold.
 
         A failure here means the *model* does not satisfy the property, i.e. the
         specification is wrong: machinery error, never a VIOLATION of the code."""
         tag = tag or os.path.splitext(cfg)[0]
+        if os.environ.get("VERIF_DEBUG_SKIP_MC"):      # developer convenience, never used by MANIFEST
+            return None
         ex = list(extra)
         if coverage:
             ex += ["-coverage", "1"]
-        r = self._tlc(tla, cfg, tag, timeout=timeout, extra=ex)
+        r = self._tlc(tla, cfg, tag, timeout=timeout, extra=ex, workers=workers)
         ok = "Model checking completed. No error has been found." in r["out"]
         log("  mc %-28s %-8s generated=%d distinct=%d %.1fs" % (
             tag, "ok" if ok else "FAILED", r["generated"], r["distinct"], r["wall"]))
@@ -144,6 +151,16 @@ class Ctx:
         """Batch trace validation: every record is judged by TLC; returns a list of
         (clause, drift, klass) in record order.  Verdicts are total."""
         tag = tag or os.path.splitext(cfg)[0]
+        all_records = records
+        live = [k for k, r in enumerate(all_records) if not r.get("timeout")]
+        records = [all_records[k] for k in live]
+        verdicts = self._validate(tla, cfg, records, tag, timeout, chunk)
+        full = [("skip:timeout", "na", "any")] * len(all_records)
+        for k, v in zip(live, verdicts):
+            full[k] = v
+        return full
+
+    def _validate(self, tla, cfg, records, tag, timeout, chunk):
         verdicts = [None] * len(records)
         for lo in range(0, len(records), chunk):
             part = records[lo:lo + chunk]
@@ -172,6 +189,22 @@ class Ctx:
             log("  validate %-22s records=%d %.1fs" % (tag, len(part), r["wall"]))
         self.traces += len(records)
         return verdicts
+
+    def parallel(self, thunks, width=4):
+        """Run independent TLC jobs (callables) concurrently; results in order.
+        The first MachineryError is re-raised after all have finished."""
+        with concurrent.futures.ThreadPoolExecutor(max_workers=width) as ex:
+            futs = [ex.submit(t) for t in thunks]
+            out, err = [], None
+            for f in futs:
+                try:
+                    out.append(f.result())
+                except MachineryError as e:
+                    err = err or e
+                    out.append(None)
+        if err:
+            raise err
+        return out
 
     # ------------------------------------------------------- verdict policy
     def judge(self, jobs, records, verdicts, what=lambda j, r, c: ""):
